@@ -41,12 +41,14 @@ CHECKS["C04"] = dict(
              thorough=dict(params=dict(size=4, ops=3), timeout=3400)),
         dict(pkg="internal/rtpbuffer", entry="HC04BufferHistory", params=dict(size=2, ops=3, fwd=3, back=6, rtx=1, csrc=1),
              thorough=dict(params=dict(size=4, ops=3), timeout=3400)),
+        dict(pkg="internal/rtpbuffer", entry="HC04BufferHistory", params=dict(size=2, ops=2, fwd=3, back=6, rtx=1, csrc=0, pad=1), require_covers=["rtx form"]),
+        dict(pkg="internal/rtpbuffer", entry="HC04BufferHistory", params=dict(size=2, ops=2, fwd=3, back=6, rtx=1, csrc=0, pad=2), require_covers=["rtx form"]),
         dict(pkg="pkg/nack", entry="HC04Responder", params=dict(size=8), require_covers=["retransmitted"], no_native=True),
         dict(pkg="pkg/nack", entry="HC04Responder", params=dict(size=1), no_native=True),
     ],
-    bounds=dict(quick="PacketFactoryCopy+RTPBuffer size 2, 3 sends (distinct numbers, fwd<=3/back<=6 incl. older than window, any base incl. wrap), payload 0..3 symbolic bytes, symbolic header fields, RTX off / RTX on with CSRC; caller scribbles its buffers after each send; one lookup with arbitrary number. Interceptor level: responder (ring size 8 / 1) with 3 sends at 2 bases (wrap), caller scribbling, a marshalled NACK with first id base-1..base+3 and every 3-bit mask for the stream or another SSRC through the RTCP reader (real rtcp unmarshal), resend goroutine run to completion, then Unbind and the same NACK again",
+    bounds=dict(quick="PacketFactoryCopy+RTPBuffer size 2, 3 sends (distinct numbers, fwd<=3/back<=6 incl. older than window, any base incl. wrap), payload 0..3 symbolic bytes, symbolic header fields, RTX off / RTX on with CSRC; RTX with header PaddingSize 1..4 and with legacy in-payload padding (2 sends); caller scribbles its buffers after each send; one lookup with arbitrary number. Interceptor level: responder (ring size 8 / 1) with 3 sends at 2 bases (wrap), caller scribbling, a marshalled NACK with first id base-1..base+3 and every 3-bit mask for the stream or another SSRC through the RTCP reader (real rtcp unmarshal), resend goroutine run to completion, then Unbind and the same NACK again",
                 thorough="size 4, 3 sends (4 sends did not finish within 50 minutes)"),
-    outside=["buffer sizes >4", "duplicate sequence numbers", "padding forms", "resend goroutines interleaved with new sends and pool recycling (the resend goroutine runs to completion while the caller waits)"],
+    outside=["buffer sizes >4", "duplicate sequence numbers", "padding longer than 1 byte in the legacy in-payload form", "resend goroutines interleaved with new sends and pool recycling (the resend goroutine runs to completion while the caller waits)"],
     assumptions=["sync.Pool modelled as LIFO free list", "rtp sequencer start nondeterministic"],
 )
 
